@@ -6,6 +6,7 @@ scratch directory.  No disk faults are injected: the statement promises
 nothing under them."""
 import hashlib
 import itertools
+import errno
 import os
 import re
 import shutil
@@ -40,6 +41,34 @@ def formatted(chunk, time_format, pid, now):
     return s
 
 
+class _FaultyOs(object):
+    """os as circus.stream.file_stream sees it during one write: the n-th
+    call of rename / remove fails once (a transient disk error inside the
+    rollover)"""
+
+    def __init__(self, real, fn, n):
+        self._real, self._fn, self._n = real, fn, n
+        self.calls = 0
+        self.fired = False
+
+    def __getattr__(self, name):
+        return getattr(self._real, name)
+
+    def _call(self, name, *a):
+        if name == self._fn:
+            self.calls += 1
+            if self.calls == self._n:
+                self.fired = True
+                raise OSError(errno.EIO, 'Input/output error (simulated)')
+        return getattr(self._real, name)(*a)
+
+    def rename(self, *a):
+        return self._call('rename', *a)
+
+    def remove(self, *a):
+        return self._call('remove', *a)
+
+
 class FileWorld(object):
     def __init__(self, case):
         from circus.stream import file_stream
@@ -54,6 +83,8 @@ class FileWorld(object):
         self.last_write = ''
         self.since_rollover_ok = True
         self.stream = None
+        self.faults_fired = 0
+        self.skipped_after_fault = 0
         self.max_bytes = case['max_bytes']
         self.backups = case['backup_count']
         tf = case.get('time_format')
@@ -115,13 +146,41 @@ class FileWorld(object):
         except OSError:
             return 0
 
-    def op_write(self, chunk, pid, dt=1):
+    def op_write(self, chunk, pid, dt=1, fault=None):
         before = self.files()
         # (several writes, of different processes, may fall into one second)
         self.t += dt
         exp = formatted(chunk, self.tf, pid, self.clock.now())
-        self.stream({'data': chunk, 'pid': pid, 'name': 'stdout'})
+        lost = False
+        if fault:
+            fos = _FaultyOs(os, fault[0], fault[1])
+            self.fs_mod.os = fos
+            try:
+                self.stream({'data': chunk, 'pid': pid, 'name': 'stdout'})
+            except OSError:
+                if not fos.fired:
+                    raise
+                # the caller was told: this write is not owed
+                lost = True
+            finally:
+                self.fs_mod.os = os
+            if fos.fired:
+                self.faults_fired += 1
+        elif self.faults_fired:
+            try:
+                self.stream({'data': chunk, 'pid': pid, 'name': 'stdout'})
+            except Exception as e:
+                self.v('stream_dead_after_transient_fault',
+                       'a write after the disk error had gone raised %r: '
+                       'nothing is retained any more' % (e,))
+                return
+        else:
+            self.stream({'data': chunk, 'pid': pid, 'name': 'stdout'})
         after = self.files()
+        if lost:
+            self.last_write = ''
+            self.check(after, 'write that failed with a disk error')
+            return
         self.logical += exp
         self.last_write = exp
         rolled = (0 in before and before.get(0) and
@@ -198,7 +257,13 @@ class FileWorld(object):
                     if isinstance(raw, str) and not (len(op) > 4 and op[4]):
                         raw = raw.encode('utf8')
                     # (op[4]: handed over as text, not as bytes off a pipe)
-                    self.op_write(raw, op[2], op[3] if len(op) > 3 else 1)
+                    self.op_write(raw, op[2], op[3] if len(op) > 3 else 1,
+                                  op[5] if len(op) > 5 else None)
+                elif kind in ('close', 'open') and self.faults_fired and \
+                        self.stream._file is None:
+                    # (close / open between a failed rollover and the next
+                    # write: the statement speaks of writes)
+                    self.skipped_after_fault += 1
                 elif kind == 'close':
                     self.stream.close()
                     self.check(self.files(), 'close')
@@ -264,8 +329,10 @@ class C20(Prop):
     components = {'real': ['circus.stream.file_stream.FileStream (all of it)',
                            'the file system (scratch directory)'],
                   'stub': ['the clock (FileStream.now -> virtual time)']}
-    assumptions = ['no disk faults are injected (the statement promises '
-                   'nothing under them)',
+    assumptions = ['disk faults: one transient rename / remove error inside '
+                   'a rollover in 8 % of the random cases (the failed write '
+                   'is not owed; contiguity and later writes are); no torn '
+                   'or short writes',
                    'chunks are valid UTF-8; the file encoding is UTF-8',
                    'a clean batch is evidence for the sampled histories, not '
                    'a proof']
@@ -343,6 +410,17 @@ class C20(Prop):
                 ops.append(['restart'])
             else:
                 ops.append(['open'])
+        ws = [o for o in ops if o[0] == 'w']
+        if rot and ws and rng.random() < 0.08:
+            # one transient disk error inside a rollover: the k-th rename /
+            # remove of one write fails, the write is reported as failed;
+            # the retained data stay a contiguous tail and later writes are
+            # kept again
+            o = rng.choice(ws)
+            while len(o) < 5:
+                o.append(1 if len(o) == 3 else False)
+            o.append([rng.choice(['rename', 'rename', 'remove']),
+                      rng.choice([1, 1, 2, 3])])
         return {'max_bytes': mb, 'backup_count': bc, 'time_format': tf,
                 'pre': pre, 'ops': ops}
 
@@ -382,7 +460,8 @@ class C20(Prop):
                     'restart': sum(1 for o in case['ops']
                                    if o[0] == 'restart'),
                     'close_reopen': sum(1 for o in case['ops']
-                                        if o[0] == 'close')},
+                                        if o[0] == 'close'),
+                    'disk_error_in_rollover': fw.faults_fired},
                 'probes': {'writes': nops,
                            'with_time_format': 1 if fw.tf is not None else 0,
                            'with_preexisting_files': 1 if case.get('pre')
